@@ -92,6 +92,7 @@ MC_CFG = """CONSTANTS
   UnitLists <- MCUnitLists
   DipTexts <- MCTexts
   UndoOnFail <- MCUndo
+  NestedNumerical = FALSE
   MaxOps <- MCMaxOps
 SPECIFICATION Spec
 INVARIANT Restored
@@ -380,7 +381,7 @@ def run(replay=None):
     t = C.tier()
     if t == "quick":
         ul = unit_lists(2, ["X", "Y", "M", "OL", "T", "T2", "TB", "BAD", "BADP"]) + [("X", "Y", "M"), ("X", "T", "OL"), ("T", "Y", "X"), ("X", "T", "BADP")]
-        tx = dip_texts(2, ["len", "c", "use", "bad", "conv", "convbad", "cond", "nest"]) + dip_texts(3, ["len", "c", "use", "bad"]) + \
+        tx = dip_texts(2, ["len", "c", "use", "bad", "conv", "convbad", "cond", "nest"]) + [("len", "c", "use"), ("len", "len", "use"), ("c", "len", "bad"), ("len", "use", "bad"), ("len", "bad", "use")] + \
              [("len", "wid", "c", "use"), ("len", "c", "wid", "bad"), ("len", "c", "convbad"), ("len", "wid", "nest"), ("len", "cond", "convbad"), ("len", "conv", "c", "use")]
         tx = sorted(set(tx))
         ul3 = [("X",), ("Y",), ("X", "Y"), ("Y", "M"), ("X", "OL"), ("T",), ("T2",), ("TB",), ("T2", "M"), ("XK", "Y"), ("Y", "BAD")]
